@@ -65,9 +65,9 @@ def lint_domain(tier, with_stress=True, with_templates=True, maxsize=None):
     maxsize = maxsize or (500 if tier == "quick" else 1200)
     parts = [gens.corpus_case(maxsize=maxsize, mutate=True), gens.corpus_case(maxsize=maxsize, mutate=True),
              gens.corpus_case(maxsize=maxsize, mutate=False), gens.text_case(max_size=120),
-             gens.gsql_case(distinct=True)]
+             gens.gsql_case(distinct=True, uniform=True)]
     if with_templates:
-        parts += [gens.jinja_case(), gens.jinja_case(undefined=True), gens.pyfmt_case(allow_invalid=True),
+        parts += [gens.jinja_case(uniform=True), gens.jinja_case(undefined=True, uniform=True), gens.pyfmt_case(allow_invalid=True),
                   gens.placeholder_case()]
     if with_stress:
         parts.append(stress_case(tier))
@@ -126,3 +126,22 @@ def lint(case, fix=None, **extra):
     with InternalErrors() as ie:
         res = guard(lnt.lint_string, case["sql"], fname="t.sql", fix=do_fix)
     return res, cfg, ie.seen
+
+
+def pinned_lint_cases(tier, per_dialect=2, mutants_per_dialect=3, templates=60, salt=0, fix_mode=None):
+    """Seed-independent backbone of the lint-level checks: fixture slice + fixed mutants + fixed generated
+    templates/queries, each with a rule selection / option set / mode picked by index."""
+    if tier != "quick":
+        per_dialect, mutants_per_dialect, templates = per_dialect * 10, mutants_per_dialect * 8, templates * 10
+    i = 0
+    srcs = [gens.corpus_slice(per_dialect, maxsize=500 if tier == "quick" else 1500, offset=salt),
+            gens.fixed_mutants(mutants_per_dialect, maxsize=500 if tier == "quick" else 1200, salt="m%d" % salt),
+            gens.fixed_templates(templates, salt=salt)]
+    for src in srcs:
+        for c in src:
+            c.setdefault("templater", "raw")
+            c["rules"] = RULE_SELECTIONS[i % len(RULE_SELECTIONS)] if i % 3 else "all"
+            c["rule_options"] = RULE_OPTIONS[(i // 3) % len(RULE_OPTIONS)] if i % 2 else {}
+            c["fix"] = bool(i % 2) if fix_mode is None else fix_mode
+            i += 1
+            yield c
